@@ -11,10 +11,11 @@ VARIABLE l
 
 Locs == <<"en", "fr", "de">>
 
-LeafTags(keys, t, p) ==
+\* t, t2: the trees of fr and de (equal except in the cross family)
+LeafTags(keys, t, t2, p) ==
     LET e == LevelAt(keys, p) IN
     UNION { LET x == Locs[i]
-                defd == x = "en" \/ NodeAt(t, p).t = "val" IN
+                defd == x = "en" \/ NodeAt(IF x = "de" THEN t2 ELSE t, p).t = "val" IN
               (IF e.vals[x] # (IF defd THEN TextTree(TextOf(x, p)) ELSE DefaultTree)
                  THEN {"val:" \o Str(PathSyms(p)) \o ":" \o x} ELSE {})
               \cup (IF e.src[x] # (IF defd THEN x ELSE "en")
@@ -24,17 +25,18 @@ LeafTags(keys, t, p) ==
 CaseTags(ev) ==
     LET c == Cases[ev.case]
         d == c.abs.def
-        t == c.abs.loc IN
-    IF LoadFails(d, <<t>>)
+        t == c.abs.loc
+        t2 == IF "loc2" \in DOMAIN c.abs THEN c.abs.loc2 ELSE t IN
+    IF LoadFails(d, <<t, t2>>)
     THEN IF ev.load.outcome = "Err" THEN {} ELSE {"expected-error-got:" \o ev.load.outcome}
     ELSE IF ev.load.outcome # "Ok" THEN {"outcome:" \o ev.load.outcome}
     ELSE LET keys == ev.load.units[1].keys
-             exp  == ExpectedWarns(d, t, "fr", Suppress, Suppress) \cup ExpectedWarns(d, t, "de", TRUE, Suppress)
+             exp  == ExpectedWarns(d, t, "fr", Suppress, Suppress) \cup ExpectedWarns(d, t2, "de", TRUE, Suppress)
              got  == ev.load.warns IN
          (IF Range(got) # exp THEN {"warnings-set"} ELSE {})
          \cup (IF Len(got) # Cardinality(Range(got)) THEN {"warnings-duplicated"} ELSE {})
          \cup (IF ~ShapeOK(keys, d) THEN {"keyset"}
-               ELSE UNION { LeafTags(keys, t, p) : p \in LeafPaths(d, <<>>) })
+               ELSE UNION { LeafTags(keys, t, t2, p) : p \in LeafPaths(d, <<>>) })
 
 \* L2: is a key path reachable from generated code?  exactly the leaf paths of the default tree are (for every locale)
 CompileTags(ev) ==
